@@ -639,8 +639,17 @@ static void run(void)
 				 "fibre_run_atomic for fibre %d returned true (event %llu) but the fibre was never dispatched afterwards (its last dispatch began at event %llu)",
 				 x, (unsigned long long)B[x].oblig, (unsigned long long)B[x].last_entry);
 	for (uint32_t k = 0; k < n_events; k++)
-		if (E[k].sent_ok && !E[k].received)
+		if (E[k].sent_ok && !E[k].received) {
+			/* A recorded finding (known_findings.txt) has its own class so that any other loss
+			 * is still reported: an event whose own wake-up was refused (send returned false)
+			 * sits undelivered in the queue and the lost events are stranded with it. */
+			for (uint32_t r = 0; r < n_events; r++)
+				if (E[r].send_done && !E[r].sent_ok && !E[r].received)
+					sim_fail("C06", "EVENT_LOST:behind_refused_send",
+						 "event %u was sent (fibre_eventq_send returned true) but never delivered: event %u, whose send returned false because the wake-up queue was full, is still in the queue and nothing wakes the handler for it",
+						 k, r);
 			sim_fail("C06", "EVENT_LOST", "event %u was sent (fibre_eventq_send returned true) but never delivered", k);
+		}
 
 	/* ---- queue health: run every fibre in a tape-chosen order, expect exactly that order ---- */
 	int order[NFIB];
